@@ -265,6 +265,10 @@ pub fn validate(s: &RawSchema) -> BTreeSet<String> {
             if f.name.starts_with("__") {
                 e("ReservedFieldName");
             }
+            // documented maximum list depth of a type (ir/types: "up to 30 levels of list nesting")
+            if f.ty.nullable.len() > 31 || f.params.iter().any(|p| p.ty.nullable.len() > 31) {
+                e("TooManyNestedLists");
+            }
             let base = f.ty.base.as_str();
             if BUILTIN.contains(&base) {
                 if !f.params.is_empty() {
@@ -401,7 +405,7 @@ pub fn validate(s: &RawSchema) -> BTreeSet<String> {
     errs
 }
 
-pub const MUTATIONS: [&str; 33] = [
+pub const MUTATIONS: [&str; 35] = [
     "remove-schema-block",
     "duplicate-schema-block",
     "schema-block-mutation-only",
@@ -435,6 +439,8 @@ pub const MUTATIONS: [&str; 33] = [
     "bad-default-value",
     "ambiguous-origin",
     "custom-scalar-property",
+    "deep-list-property",
+    "too-deep-list-type",
 ];
 
 /// apply one mutation; returns false when it was not applicable to this document
@@ -722,6 +728,26 @@ pub fn mutate(rng: &mut Rng, s: &mut RawSchema, op: &str) -> bool {
         "unknown-field-type" => {
             let ti = rng.below(n);
             s.types[ti].fields.push(RawField { name: format!("unk{ti}"), ty: Ty::scalar("Nowhere", true), params: vec![] });
+            true
+        }
+        "deep-list-property" | "too-deep-list-type" => {
+            // list types at (30: still representable, valid) and beyond (31-33) the documented maximum depth,
+            // as a property type or as the type of an edge parameter
+            let ti = *rng.pick(&non_root);
+            let depth = if op == "deep-list-property" { rng.range(28, 30) } else { rng.range(31, 33) };
+            let ty = Ty { base: (*rng.pick(&["Int", "String"])).to_string(), nullable: (0..=depth).map(|_| rng.chance(50)).collect() };
+            if rng.chance(65) || s.types[ti].fields.iter().all(|f| BUILTIN.contains(&f.ty.base.as_str())) {
+                s.types[ti].fields.push(RawField { name: format!("deep{ti}"), ty, params: vec![] });
+            } else {
+                let fi = s.types[ti].fields.iter().position(|f| !BUILTIN.contains(&f.ty.base.as_str())).unwrap();
+                // only when this edge is not inherited / not implemented elsewhere (keep the other rules intact): add a new edge instead
+                let target = s.types[ti].fields[fi].ty.base.clone();
+                s.types[ti].fields.push(RawField {
+                    name: format!("deepedge{ti}"),
+                    ty: Ty { base: target, nullable: vec![true] },
+                    params: vec![RawParam { name: "deep".into(), ty, default: None }],
+                });
+            }
             true
         }
         "list-of-list-edge" => {
